@@ -291,8 +291,8 @@ func (c *conv) insert(i int, kind int, b []byte) {
 	c.kinds = append(c.kinds[:i], append([]int{kind}, c.kinds[i:]...)...)
 }
 
-var hugeLens = []uint32{4097, 65535, 65536, 1 << 20, 1 << 24, 1 << 27, 1 << 31, 0xfffffffe, 0xffffffff}
-var statCounts = []uint32{0, 1, 4, 255, 65535, 1 << 16, 1 << 20, 1 << 24, 1 << 27, 1 << 31, 0xffffffff}
+var hugeLens = []uint32{4097, 65535, 65536, 1 << 20, 1 << 22, 1 << 22, 1 << 23, 0x10000000, 0xc0000000, 0xfffffffe, 0xffffffff}
+var statCounts = []uint32{0, 1, 4, 255, 65535, 1 << 16, 1 << 19, 1 << 20, 1 << 24, 1 << 30, 0xffffffff}
 
 var mutClasses = []string{
 	"hdrlen_small", "hdrlen_mid", "hdrlen_minus", "hdrlen_plus", "hdrlen_huge", "version", "msgtype",
